@@ -779,7 +779,7 @@ func runReal(c *rig.Ctx, cs Case) (out realOut, f *failure) {
 		case "idle":
 			// a fresh bucket owes its whole burst
 			fresh := int64(0)
-			for i := 0; i < cs.Burst; i++ {
+			for i := 0; i < cs.Burst+1 && fresh < int64(cs.Burst); i++ { // one refusal tolerated, as in lowerOK
 				if g.current().TryAcquire() {
 					fresh++
 				}
@@ -1005,7 +1005,7 @@ func main() {
 			runCase(c, cs, true)
 		}
 		// scripts
-		n := c.Budget(3000, 120000)
+		n := c.Budget(3000, 100000)
 		for i := 0; i < n && c.NFailures() < 5; i++ {
 			path := "direct"
 			if i%3 == 2 {
